@@ -90,40 +90,22 @@ def expected_partition(rows, loop_id):
     return parts
 
 
-def run(ctx, report):
-    rng = random.Random(ctx['seed'])
-    logging.disable(logging.CRITICAL)
-    thorough = ctx['tier'] == 'thorough'
-    report.rule = ('(a) model vs implementation: iter_segments on generated and corpus documents (valid, mutated, several sets/groups/'
-                   'interchanges, synthetic cases) x loop ids (occurring, envelope, absent, None, lower-case, first-child-is-a-loop); '
-                   '(b) oracle on the implementation for documents in which every segment is located by its own id, for loop id None, '
-                   'the envelope loops and every segment-anchored loop occurring in the document: the segments of the yielded nodes, '
-                   'concatenated, are the source segments in order; the trees are exactly the maximal runs of the requested loop cut '
-                   'at its first segment, rooted at that loop; every segment carries its seg_count and line.  Distinct = (text, loop id).')
-    ctxcorr.iters(report, ctx, rng, 400 if thorough else 80, thorough)
-    # (b) oracle
-    import pipecorr
-    import pipe_gen
-    names = walk_gen.DOC_MAPS if thorough else walk_gen.QUICK_MAPS
-    docs = []
-    for k in range(120 if thorough else 30):
-        name = rng.choice(names)
-        n_isa, n_gs, n_st = rng.choice([(1, 1, 1), (1, 1, 2), (1, 2, 1), (2, 1, 1)])
-        segs, d = walk_gen.map_document(rng, name, None, n_isa=n_isa, n_gs=n_gs, n_st=n_st, p_seg=0.2, p_loop=0.3, max_segs=40)
-        docs.append(('map:%s:%d/%d/%d' % (name, n_isa, n_gs, n_st), walk_gen.encode_document(rng, segs, d)))
-    for ck, text in pipe_gen.corpus_docs():
-        docs.append(('corpus:' + ck, text))
-    for what, text in docs:
+def oracle_doc(report, rng, thorough, what, text, only_loop_ids=None):
+    """the partition / arrangement oracle on one document, for loop id None, the envelope loops and the segment-anchored
+    loops occurring in it (or for the given loop ids only)"""
+    if True:
         rows, exn = source_and_paths(text)
         if exn or not rows or any(r[3] is None for r in rows):
             report.count('oracle:skipped-not-all-located')
-            continue
+            return
         loop_ids = [None, 'ISA_LOOP', 'GS_LOOP', 'ST_LOOP']
         seen = []
         for r in rows:
             if r[4] and r[3][-1] not in seen and r[3][-1] not in loop_ids:
                 seen.append(r[3][-1])               # loops that begin with a segment and occur in the document
         loop_ids += seen if thorough else rng.sample(seen, min(len(seen), 4))
+        if only_loop_ids is not None:
+            loop_ids = list(only_loop_ids)
         for lid in loop_ids:
             report.case(('oracle', text, lid))
             report.count('oracle:loop-id:' + ('None' if lid is None else ('envelope' if lid in ('ISA_LOOP', 'GS_LOOP', 'ST_LOOP') else 'body')))
@@ -168,6 +150,37 @@ def run(ctx, report):
                                     'segment %d of a tree sits under loops %r but matched the map path %r' % bad, inp)
                         break
                 pos += len(segs)
+
+
+def run(ctx, report):
+    rng = random.Random(ctx['seed'])
+    logging.disable(logging.CRITICAL)
+    thorough = ctx['tier'] == 'thorough'
+    report.rule = ('(a) model vs implementation: iter_segments on generated and corpus documents (valid, mutated, several sets/groups/'
+                   'interchanges, synthetic cases) x loop ids (occurring, envelope, absent, None, lower-case, first-child-is-a-loop); '
+                   '(b) oracle on the implementation for documents in which every segment is located by its own id, for loop id None, '
+                   'the envelope loops and every segment-anchored loop occurring in the document: the segments of the yielded nodes, '
+                   'concatenated, are the source segments in order; the trees are exactly the maximal runs of the requested loop cut '
+                   'at its first segment, rooted at that loop; every segment carries its seg_count and line.  Distinct = (text, loop id).')
+    ctxcorr.iters(report, ctx, rng, 400 if thorough else 80, thorough)
+    # (b) oracle
+    import pipecorr
+    import pipe_gen
+    names = walk_gen.DOC_MAPS if thorough else walk_gen.QUICK_MAPS
+    docs = []
+    for k in range(120 if thorough else 30):
+        name = rng.choice(names)
+        n_isa, n_gs, n_st = rng.choice([(1, 1, 1), (1, 1, 2), (1, 2, 1), (2, 1, 1)])
+        segs, d = walk_gen.map_document(rng, name, None, n_isa=n_isa, n_gs=n_gs, n_st=n_st, p_seg=0.2, p_loop=0.3, max_segs=40)
+        docs.append(('map:%s:%d/%d/%d' % (name, n_isa, n_gs, n_st), walk_gen.encode_document(rng, segs, d)))
+    for ck, text in pipe_gen.corpus_docs():
+        docs.append(('corpus:' + ck, text))
+    for what, text in docs:
+        oracle_doc(report, rng, thorough, what, text)
+    # search for a failing input where model and implementation parted: the oracle on exactly those (text, loop id)
+    for (what, text, lid) in getattr(report, 'disagreeing_inputs', [])[:40]:
+        report.count('oracle:on-disagreeing-input')
+        oracle_doc(report, rng, thorough, 'disagreement:' + what, text, only_loop_ids=[lid])
     logging.disable(logging.NOTSET)
 
 
